@@ -12,6 +12,7 @@ import DsdVerif.Model.Kernel
 import DsdVerif.Model.Reader
 import DsdVerif.Gen.PyFuncs
 import DsdVerif.Gen.PyIupac
+import DsdVerif.Spec.PyComplexS
 import DsdVerif.Model.Dlc
 
 namespace Dsd.Driver
@@ -573,5 +574,57 @@ def stepR (s : RState) (line : String) : RState × String :=
         if keep == "1" then (s1, out) else (s1.keepOnly before {}, out)
   | ["reset"] => ({}, "ok")
   | _ => let (w', r) := stepW s.w line; ({ s with w := w' }, r)
+
+/-! ### the methods of `ComplexS` as translated from the source (Gen/PyComplexS.lean), executed on their own object states -/
+
+structure DState where
+  r : RState := {}
+  py : List (Nat × Gen.ComplexS.Self) := []        -- handle ↦ the object as the translated methods left it
+
+/-- the translated object of a handle: as it was left, or (first use) as `__init__` leaves it for the model's description -/
+def pyObj (d : DState) (id : Nat) : Option Gen.ComplexS.Self :=
+  match d.py.lookup id with
+  | some s => some s
+  | none => (d.r.w.cstate.lookup id).map (fun o => Gen.py_ComplexS_init o.seq o.sst o.name (Int.ofNat o.turns))
+
+def pySet (d : DState) (id : Nat) (s : Gen.ComplexS.Self) : DState := { d with py := (id, s) :: d.py.filter (fun p => p.1 != id) }
+
+def stepD (d : DState) (line : String) : DState × String :=
+  match line.splitOn "\t" with
+  | ["reset"] => ({}, "ok")
+  | ["pyq", h, v, arg] =>
+    match parseHandle h, parseView v arg with
+    | some id, some v =>
+      match pyObj d id with
+      | some s =>
+        let (r, s') := (PyObj.pyAnswer v).exec s
+        (pySet d id s', showAns (match r with | .ok a => a | .error e => .err e))
+      | none => (d, "err Fault dead-handle")
+    | _, _ => (d, "bad-op")
+  | ["pyset.turns", h, v] =>
+    match parseHandle h, v.toInt? with
+    | some id, some v =>
+      match pyObj d id with
+      | some s =>
+        let (r, s') := (Gen.py_ComplexS_set_turns v).exec s
+        (pySet d id s', match r with | .ok _ => "ok" | .error e => showErr e)
+      | none => (d, "err Fault dead-handle")
+    | _, _ => (d, "bad-op")
+  | ["pypeek", h, which] =>
+    -- `next(c.rotate())` / `next(c.rotate_pt())` read through the list the generator is translated to: its first item
+    match parseHandle h with
+    | some id =>
+      match pyObj d id with
+      | some s =>
+        let m : Gen.ComplexS.M (List (List String × List Char)) :=
+          if which == "rotate_pt" then do let l ← Gen.py_ComplexS_rotate_pt none; PyObj.rotsOfPt l else Gen.py_ComplexS_rotate none
+        let (r, s') := m.exec s
+        (pySet d id s', match r with
+          | .ok (x :: _) => "peek " ++ showNames x.1 ++ " / " ++ String.ofList x.2
+          | .ok [] => "err Fault StopIteration"
+          | .error e => showErr e)
+      | none => (d, "err Fault dead-handle")
+    | none => (d, "bad-op")
+  | _ => let (r', out) := stepR d.r line; ({ d with r := r' }, out)
 
 end Dsd.Driver
